@@ -145,13 +145,22 @@ theorem tie_box_motion_matrix : box_motion_matrix (1 : α) = (Fm : Matrix (Fin 5
   unfold box_motion_matrix Fm
   simp only [List.range', List.foldl, Nat.sub_zero]
   ext (i | i) (j | j) <;> fin_cases i <;> fin_cases j <;>
-    simp [setEntry, NatIdx.toNat, Matrix.one_apply]
+    simp [setEntry, identityRect, NatIdx.toNat, Matrix.one_apply]
+
+/-- the `update_matrix` of `new`, `SMatrix::<5, 10>::identity()`, is the measurement matrix `H = [1 0]` -/
+theorem tie_box_update_matrix : (box_update_matrix : Matrix (Fin 5) (Fin 5 ⊕ Fin 5) α) = Hm := by
+  unfold box_update_matrix Hm
+  ext i (j | j) <;> fin_cases i <;> fin_cases j <;> simp [identityRect, NatIdx.toNat, Matrix.one_apply, Matrix.fromCols]
+
+theorem tie_point_update_matrix : (point_update_matrix : Matrix (Fin 2) (Fin 2 ⊕ Fin 2) α) = Hm := by
+  unfold point_update_matrix Hm
+  ext i (j | j) <;> fin_cases i <;> fin_cases j <;> simp [identityRect, NatIdx.toNat, Matrix.one_apply, Matrix.fromCols]
 
 theorem tie_point_motion_matrix : point_motion_matrix (1 : α) = (Fm : Matrix (Fin 2 ⊕ Fin 2) (Fin 2 ⊕ Fin 2) α) := by
   unfold point_motion_matrix Fm
   simp only [List.range', List.foldl, Nat.sub_zero]
   ext (i | i) (j | j) <;> fin_cases i <;> fin_cases j <;>
-    simp [setEntry, NatIdx.toNat, Matrix.one_apply]
+    simp [setEntry, identityRect, NatIdx.toNat, Matrix.one_apply]
 
 /-- the measurement vector the source reads off a box -/
 def boxMeas (b : Geom.UBox α) : List α := [b.xc, b.yc, b.angle.getD 0, b.aspect, b.height]
